@@ -100,6 +100,9 @@ func (c17) Gen(seed uint64, tier string) Case {
 	r := simrt.NewRNG(seed)
 	c := &C17Case{Common: Common{Prop: "C17", Seed: seed, Tier: tier}}
 	n := 3 + r.Intn(8)
+	if tier == "thorough" {
+		n = 3 + r.Intn(16)
+	}
 	startAt := r.Intn(n)
 	names := 0
 	var regNames []string
@@ -402,6 +405,7 @@ func (c17) Run(t *testing.T, cs Case, trace bool) *Outcome {
 					out.probe("accepted")
 				} else {
 					out.probe("rejected")
+					out.fault("registration:invalid-declaration-rejected")
 				}
 			case "update-inputs":
 				p := probes[step.Target]
@@ -427,6 +431,7 @@ func (c17) Run(t *testing.T, cs Case, trace bool) *Outcome {
 					out.probe("accepted")
 				} else {
 					out.probe("rejected")
+					out.fault("registration:invalid-declaration-rejected")
 				}
 			}
 			// let the system run for a virtual second (the background churn keeps events flowing) and compare the graph
